@@ -133,7 +133,9 @@ def update_additivity(u, rep, kind, ddtype, tdtype, precision, timeout):
         old = {k: (v, v.snapshot()) for k, v in d.__dict__.items() if isinstance(v, symnp.ndarray)}
         traces = H.sym_reals('X', (n, S), tdtype) if _rnp.dtype(tdtype).kind == 'f' else H.sym_ints('X', (n, S), tdtype)
         data = H.sym_reals('Y', (n, Wd), ddtype) if _rnp.dtype(ddtype).kind == 'f' else (H.sym_ints('Y', (n, Wd), ddtype) if kind == 'CPA' else H.sym_bytes('Y', (n, Wd), ddtype, bits=1))
+        core.NARROW_FLOWS.clear()
         d._update(traces, data)
+        d._narrow = list(core.NARROW_FLOWS)
         return d, n, S, Wd, traces, data, old
     tag = '%s,data %s,traces %s,%s' % (kind, ddtype, tdtype, precision)
     for p, outc, exc in core.explore(body):
@@ -142,6 +144,12 @@ def update_additivity(u, rep, kind, ddtype, tdtype, precision, timeout):
             rep.violation('post[_update additive: %s]' % tag, fn, 'raises %r' % (exc,), dict(kind='update', dist=kind, ddtype=ddtype, tdtype=tdtype, precision=precision), None, *native(dict(kind='update', dist=kind, ddtype=ddtype, tdtype=tdtype, precision=precision))); continue
         d, n, S, Wd, X, Y, old = outc
         s = z3.Int('s!'); w = z3.Int('w!'); cons = [s >= 0, s < S.z, w >= 0, w < Wd.z]
+        for a_ in ('ex', 'ex2', 'ey', 'ey2', 'exy', 'accumulator_traces', 'accumulator_ones'):
+            if hasattr(d, a_): getattr(d, a_).at(*[SInt(w) if k_ == 0 and getattr(d, a_).ndim == 2 else SInt(s) if getattr(d, a_).shape[k_] is S or (getattr(d, a_).ndim == 1 and a_ in ('ex', 'ex2', 'accumulator_traces')) else SInt(w) for k_ in range(getattr(d, a_).ndim)])       # force evaluation so that precision taint is recorded
+        flows = list(core.NARROW_FLOWS) + d._narrow
+        okf = not flows
+        rep.obligation('dtype[_update %s: no inexact operation in a float type narrower than the accumulator]' % tag, fn, 'dtype-flow', dict(result='unsat' if okf else 'sat', backend='taint-scan', secs=0))
+        if not okf: rep.violation('dtype[_update %s: no inexact operation in a float type narrower than the accumulator]' % tag, fn, 'arithmetic in float%d flows into a float%d accumulator' % flows[0], dict(kind='update', dist=kind, ddtype=ddtype, tdtype=tdtype, precision=precision, flows=flows[:2]), 'precision taint', None, dict(note='rounding effect: not replayable in exact arithmetic'))
         x = lambda i: DCm.real_of(X.at(i, SInt(s))); y = lambda i: DCm.real_of(Y.at(i, SInt(w)))
         bs = DCm.batch_sum
         if kind == 'CPA':
